@@ -64,6 +64,9 @@ def run(chk):
             st, got = C.excname(p.get_dihedral, i, j)
             if st != "ok" or abs(got - phi) > 1e-7:
                 chk.violation("get_dihedral", dict(desc, faces=[i, j], impl=None if st != "ok" else float(got), exact=phi, error=st))
+            st, got = C.excname(p.get_dihedral, j, i)      # the angle between two faces does not depend on the order they are named in
+            if st != "ok" or abs(got - phi) > 1e-7:
+                chk.violation("get_dihedral", dict(desc, faces=[j, i], impl=None if st != "ok" else float(got), exact=phi, error=st))
         M /= 8 * math.pi
         nE = len(rows)
         if nE != len(V) + len(m["F"]) - 2:
